@@ -13,16 +13,9 @@ IJK = [{'i': 'j'}, {'j': 'k'}]
 TRANS = [{'x': 'y', 'y': 'x'}, {'y': 'z', 'z': 'y'}]  # symmetric tensor rows
 
 # Functions whose component formulas are anisotropic by design (function -> reason). Out of scope for X1.
+# Functions that are only partly anisotropic are checked; their anisotropic stanzas are listed in ANISOTROPIC_GROUPS.
 ANISOTROPIC = {
     'operator_H012': 'SEI epicycle solution treats x,y,z differently',
-    'operator_phi1': 'SEI shearing-sheet kick is anisotropic',
-    'reb_collision_resolve_hardsphere': 'works in a frame rotated onto the line of centres',
-    'reb_particle_from_orbit_err': 'orbital reference plane is special',
-    'reb_particle_from_pal': 'reference plane is special',
-    'reb_tools_particle_to_pal': 'reference plane is special',
-    'reb_orbit_from_particle_err': 'reference plane is special',
-    'reb_tools_spherical_to_xyz': 'spherical coordinates',
-    'reb_tools_xyz_to_spherical': 'spherical coordinates',
     'reb_rotation_init_orbit': 'Euler angles',
     'reb_rotation_init_angle_axis': 'axis-angle',
     'reb_rotation_to_orbital': 'Euler angles',
@@ -274,6 +267,13 @@ def related(t1, t2, step, vocab):
 ANISOTROPIC_GROUPS = {
     ('reb_boundary_get_ghostbox', 'gb.x', 'REB_BOUNDARY_SHEAR'): 'shear-periodic images are shifted in y by the shear offset (R15.2 decides this stanza)',
     ('reb_boundary_get_ghostbox', 'gb.vx', 'REB_BOUNDARY_SHEAR'): 'shear velocity offset applies to vy only (R15.2 decides this stanza)',
+    ('reb_collision_resolve_hardsphere', 'particles[c.p2].vx', None): 'rotation back from the frame aligned with the line of centres (two planar rotations, anisotropic by construction)',
+    ('reb_collision_resolve_hardsphere', 'particles[c.p1].vx', None): 'rotation back from the frame aligned with the line of centres',
+    ('reb_particle_from_orbit_err', 'p.x', None): 'Euler rotation from the orbital plane: the reference plane is special',
+    ('reb_particle_from_orbit_err', 'p.vx', None): 'Euler rotation from the orbital plane: the reference plane is special',
+    ('reb_particle_from_pal', 'np.x', None): 'Pal coordinates: the reference plane is special',
+    ('reb_particle_from_pal', 'np.vx', None): 'Pal coordinates: the reference plane is special',
+    ('reb_tools_spherical_to_xyz', 'xyz.x', None): 'spherical coordinates',
 }
 
 
@@ -356,6 +356,7 @@ def check_function(tu, fn, report, stats, rule='X1'):
 
 
 def run_files(ctx, rule, cfiles, only=None, skip=()):
+    """only: None, a set of function names (all files) or {cfile: set of function names}."""
     tus = cfront.load_tus(cfiles)
     stats = {'groups': 0, 'samples': []}
     nfun = 0
@@ -364,7 +365,10 @@ def run_files(ctx, rule, cfiles, only=None, skip=()):
         for name, fn in sorted(tu.funcs.items()):
             if cfront.basename(fn.get('_locfile') or fn.get('_file')) != c:
                 continue
-            if only is not None and name not in only:
+            if isinstance(only, dict):
+                if c in only and name not in only[c]:
+                    continue
+            elif only is not None and name not in only:
                 continue
             if name in ANISOTROPIC or name in skip:
                 continue
